@@ -879,6 +879,11 @@ func isSafeForReverseInner(re *syntax.Regexp) bool {
 		if len(re.Sub) < 2 {
 			return false
 		}
+		// No anchors anywhere: the reversed automata follow assertions as plain
+		// epsilons, so the reverse scans would ignore them.
+		if containsAnchor(re) {
+			return false
+		}
 		// Check for safe wildcard prefix at the beginning
 		first := re.Sub[0]
 
